@@ -648,7 +648,7 @@ def check_commented(spec, value, depths, rng_seed, widths=None):
     for d in depths:
         for w in (widths or COMMENT_WIDTHS):
             n += 1
-            kwargs = {'depth': d, 'width': w}
+            kwargs = {'depth': d, 'width': w, 'sort_dict_keys': bool(rng_seed % 2)}
             case = {'expr': expr, 'kwargs': kwargs, 'commented': True, 'rng': rng_seed}
             try:
                 with common.caught_warnings() as cw:
@@ -686,14 +686,15 @@ def _shard(arg):
         width = WIDTH_CYCLE[i % 3]
         expr = expr_of(spec)
         value = eval(expr, dict(NS))
-        unlimited = pformat(value, depth=None, width=width)
+        sort = bool(i % 2)          # every second value is printed with sort_dict_keys=True: the cut must not depend on the key order setting
+        unlimited = pformat(value, depth=None, width=width, sort_dict_keys=sort)
         if ftags[0] == 'atoms':
             atom_levels = [k for s, k, _ in leaves_of(spec) if s[0] == 'atom']
             depths = sorted(set(atom_levels))                     # exactly at the cut
         else:
             depths = list(range(0, height + 3)) + [None]
         for d in depths:
-            kwargs = {'depth': d, 'width': width}
+            kwargs = {'depth': d, 'width': width, 'sort_dict_keys': sort}
             vs = check_spec(spec, kwargs, value, unlimited)
             acc['evaluations'] += 1
             cnt['family:' + ftags[0]] = cnt.get('family:' + ftags[0], 0) + 1
